@@ -650,14 +650,16 @@ pub fn c08_flatten() -> i32 {
 pub fn c10_paths() -> i32 {
     use scale_typegen::typegen::ir::ToTokensWithSettings;
     panic::set_hook(Box::new(|_| {}));
-    // ids: 0 u8, 1 Compact<u8>, 2 BitSequence<store u8, order 3>, 3 m::Lsb0, 4 Vec<Compact<u8>>, 5 [BitSequence; 2], 6 (u8, Compact<u8>), 7 m::S { a: Compact<u8> }, 8 u16
+    // ids: 0 u8, 1 Compact<u8>, 2 BitSequence<store u8, order 3>, 3 m::Lsb0, 4 Vec<Compact<u8>>, 5 [BitSequence; 2], 6 (u8, Compact<u8>), 7 m::S { a: Compact<u8> }, 8 u16,
+    //      9 m::W(u8), 10 Compact<m::W> (a compact whose inner type is not a primitive)
     let reg = registry(vec![
         ty("", vec![], prim(TypeDefPrimitive::U8)), ty("", vec![], compact(0)), ty("", vec![], bitseq(0, 3)), ty("m::Lsb0", vec![], composite(vec![])),
         ty("", vec![], seq(1)), ty("", vec![], arr(2, 2)), ty("", vec![], tuple(vec![0, 1])), ty("m::S", vec![], composite(vec![field(Some("a"), 1, Some("Compact<u8>"))])),
         ty("", vec![], prim(TypeDefPrimitive::U16)),
+        ty("m::W", vec![], composite(vec![field(None, 0, Some("u8"))])), ty("", vec![], compact(9)),
     ]);
     // which ids need which path (transitively, for path resolution): compact: 1 4 6; bits: 2 5
-    let needs_compact = [1u32, 4, 6];
+    let needs_compact = [1u32, 4, 6, 10];
     let needs_bits = [2u32, 5];
     let mut tried = 0;
     let mut found = None;
@@ -684,7 +686,7 @@ pub fn c10_paths() -> i32 {
                             let s = p.to_token_stream(&settings).to_string().replace(' ', "");
                             let uses_c = s.contains("::my::Cpt"); let uses_b = s.contains("::my::Bits");
                             // a compact that is resolved as a FIELD is written as its inner type (the attribute carries the compactness)
-                            let expect_c = needs_compact.contains(&id) && !(as_field && id == 1);
+                            let expect_c = needs_compact.contains(&id) && !(as_field && (id == 1 || id == 10));
                             if uses_c != expect_c { Some(format!("resolved to `{s}`: configured compact path {}", if expect_c { "missing" } else { "used unexpectedly" })) }
                             else if uses_b != needs_bits.contains(&id) { Some(format!("resolved to `{s}`: configured decoded-bits path {}", if uses_b { "used unexpectedly" } else { "missing" })) }
                             else if id == 0 && s != "::core::primitive::u8" { Some(format!("u8 resolved to `{s}`")) }
@@ -693,7 +695,7 @@ pub fn c10_paths() -> i32 {
                         }
                     }
                 };
-                if let Some(w) = why { found = Some((format!("{}({id}) with compact path {} and decoded-bits path {} (ids: 0 u8, 1 Compact<u8>, 2 BitSequence, 3 m::Lsb0, 4 Vec<Compact<u8>>, 5 [BitSequence; 2], 6 (u8, Compact<u8>), 7 m::S, 8 u16)",
+                if let Some(w) = why { found = Some((format!("{}({id}) with compact path {} and decoded-bits path {} (ids: 0 u8, 1 Compact<u8>, 2 BitSequence, 3 m::Lsb0, 4 Vec<Compact<u8>>, 5 [BitSequence; 2], 6 (u8, Compact<u8>), 7 m::S, 8 u16, 9 m::W(u8), 10 Compact<m::W>)",
                     if as_field { "resolve_field_type_path" } else { "resolve_type_path" }, if cfg & 1 != 0 { "set" } else { "unset" }, if cfg & 2 != 0 { "set" } else { "unset" }), w)); break 'o; }
             }
         }
